@@ -819,7 +819,7 @@ def run_read(case, drv):
     model = drv.call("c06.read", doc=wire)
     spec = drv.call("c06.denote", doc=wire)
     domf = drv.call("c06.dom_doc", doc=wire)["ok"]
-    dom = domf["keysounds_declared"] and domf["lanes_declared"] and "ok" in spec
+    dom = domf["objs_declared"] and "ok" in spec
     ok, agree, kf, maxdev, detail = True, True, None, 0.0, {}
     if impl[0] == "err":
         agree = model.get("err") == impl[1]
@@ -1015,7 +1015,7 @@ def run_wr(case, drv):
     tags = [case.get("style", "block")] + _doc_tags(case["doc"], pdoc)
     domf = drv.call("c06.dom_doc", doc=wire)["ok"]
     spec = drv.call("c06.denote", doc=wire)
-    dom = domf["keysounds_declared"] and domf["lanes_declared"] and "ok" in spec
+    dom = domf["objs_declared"] and "ok" in spec
     impl = _read_impl(text)
     mread = drv.call("c06.read", doc=wire)
     ok, agree, detail = True, True, {}
